@@ -512,8 +512,8 @@ func TestCheck(t *testing.T) {
 		return f
 	})
 	r.Main(evid.Meta{
-		Rule:        "the limiter built with (total, per-path) limits from {1,2,unlimited}, the wrapped do / doObserve blocking on a per-request gate and keeping in-flight gauges (requests go through Do or DoObserve: odd ones in the exhaustive engine, a generated subset in the random one); events {arrive(i,path), cancel(i), finish(i)} executed one at a time in a synctest bubble with quiescence after each; exhaustive: every event order for 3 requests (4 in the thorough tier) x every cancel subset x path assignments x 7 limit pairs; random: 4-7 requests over 3 paths. Oracle at every quiescent point: in-flight <= total limit and <= per-path limit per path; a waiter cancelled while waiting returns its context error and never runs; no waiter exists while both limits have room for it (no lost slot); the per-path queue (verif accessor) holds exactly the latest arrivals among the pending requests of its path and nobody who arrived after a queued request has run (FIFO admission; with no total limit also: entry into do() follows arrival order across steps); finally every call has returned, a probe on every path is admitted at once, and no limiter goroutine is left. stress: 3-32 real goroutines (no virtual clock) released together on 3 paths, cancelling after 0-400 us, 40 repetitions per pattern; the gauges inside do() give the maximum ever in flight, afterwards the queue table (verif accessor) is empty and a probe on each path runs at once. Non-trivial = a cancel of a request queued behind another one (finite limits); distinct by scenario",
+		Rule:        "wire: a whole client connection (datagram and stream) with total limit 1-3 and per-path limit 1-2 against a scripted peer that answers when the scenario says so; Get, Observe and Observation.Cancel calls on three paths; at every quiescent point the requests the peer holds unanswered (GETs, observe registrations and de-registrations alike) number at most the total limit and, per path, the per-path limit; when the peer has answered everything every call has returned. Others: the limiter built with (total, per-path) limits from {1,2,unlimited}, the wrapped do / doObserve blocking on a per-request gate and keeping in-flight gauges (requests go through Do or DoObserve: odd ones in the exhaustive engine, a generated subset in the random one); events {arrive(i,path), cancel(i), finish(i)} executed one at a time in a synctest bubble with quiescence after each; exhaustive: every event order for 3 requests (4 in the thorough tier) x every cancel subset x path assignments x 7 limit pairs; random: 4-7 requests over 3 paths. Oracle at every quiescent point: in-flight <= total limit and <= per-path limit per path; a waiter cancelled while waiting returns its context error and never runs; no waiter exists while both limits have room for it (no lost slot); the per-path queue (verif accessor) holds exactly the latest arrivals among the pending requests of its path and nobody who arrived after a queued request has run (FIFO admission; with no total limit also: entry into do() follows arrival order across steps); finally every call has returned, a probe on every path is admitted at once, and no limiter goroutine is left. stress: 3-32 real goroutines (no virtual clock) released together on 3 paths, cancelling after 0-400 us, 40 repetitions per pattern; the gauges inside do() give the maximum ever in flight, afterwards the queue table (verif accessor) is empty and a probe on each path runs at once. Non-trivial = a cancel of a request queued behind another one (finite limits); distinct by scenario",
 		Assumptions: []string{"events are applied one at a time, so at a quiescent point a request is either waiting or running: the 'either outcome' tolerance for simultaneous admission and cancellation is not needed"},
 		Floor:       500,
-	}, exhaustive(t, 3), random, stressEngine(r))
+	}, exhaustive(t, 3), random, stressEngine(r), wireEngine(t, r))
 }
